@@ -15,5 +15,6 @@ func moreGens() []struct {
 		{"Safety.v", genSafety},       // C03
 		{"DeclHash.v", genDeclHash},   // C13, C15
 		{"FaultWrap.v", genFaultWrap}, // C16
+		{"C08Facts.v", genC08Facts},   // C08
 	}
 }
